@@ -365,3 +365,252 @@ Proof.
   - split; [vm_compute; reflexivity|]. split; [vm_compute; reflexivity|].
     eexists. vm_compute. reflexivity.
 Qed.
+
+(** * 9. Kernels of the second batch (Model/Safety2.v, Proofs/Safety2Proofs.v): same conventions — every
+    access through [rd] / [wr] ([OOB] outside the buffer), every [while] loop fuelled ([OutOfFuel]). *)
+From SKN Require Import Model.Safety2 Proofs.Safety2Proofs.
+Set Warnings "-notation-overridden". (* keep: a line with a parenthesis after the imports *)
+
+(** ** 9.1 weisfeiler_lehman_core.pyx: weisfeiler_lehman_coloring
+
+    [sort] stands for std::sort ([sort_contract]: same length, every element an element of the input — any
+    permutation qualifies). Contract of the callers (color_weisfeiler_lehman, are_isomorphic): [labels] has
+    n entries which index [powers] (zeros, or the output of a previous call), [powers] has >= n entries,
+    and [max_iter <= n], so max_iter = 0 on a graph without nodes. In bounds for EVERY fuel. *)
+Theorem wl_kernel_safe fuel sort n indptr indices labels (powers : list Q) max_iter :
+  csr_pat_wf n indptr indices -> length labels = n -> n <= length powers ->
+  Forall (fun l => l < length powers) labels -> sort_contract sort -> (max_iter = 0 \/ 1 <= n) ->
+  wl_kernel fuel sort indptr indices labels powers max_iter <> OOB.
+Proof. exact (wl_kernel_safe_ok fuel sort n indptr indices labels powers max_iter). Qed.
+Print Assumptions wl_kernel_safe.
+
+(** the [while iteration < max_iter and has_changed] loop runs at most max_iter rounds (fuel max_iter) and
+    hands back n labels that still index [powers] (so the next call of are_isomorphic is in contract) *)
+Theorem wl_kernel_terminates sort n indptr indices labels (powers : list Q) max_iter :
+  csr_pat_wf n indptr indices -> length labels = n -> n <= length powers ->
+  Forall (fun l => l < length powers) labels -> sort_contract sort -> (max_iter = 0 \/ 1 <= n) ->
+  exists labels' changed rounds,
+    wl_kernel max_iter sort indptr indices labels powers max_iter = KOk (labels', changed, rounds) /\
+    rounds <= max_iter /\ length labels' = n /\ Forall (fun l => l < length powers) labels'.
+Proof. exact (wl_kernel_terminates_ok sort n indptr indices labels powers max_iter). Qed.
+Print Assumptions wl_kernel_terminates.
+
+(** Outside that contract (not reachable through the public functions, which clamp max_iter to n): the
+    kernel called on a graph without nodes with max_iter >= 1 reads [new_labels[0]] of an empty vector. *)
+Theorem wl_kernel_no_node_direct_call_refuted fuel sort max_iter :
+  sort_contract sort -> wl_kernel (S fuel) sort [0] [] [] [] (S max_iter) = OOB.
+Proof. exact (wl_kernel_no_node_oob fuel sort max_iter). Qed.
+Print Assumptions wl_kernel_no_node_direct_call_refuted.
+
+(** ** 9.2 betweenness.pyx: Betweenness.fit (Brandes)
+
+    [br_sources f (seq 0 n) n indptr indices scores []] is the loop over all sources with BFS fuel f per
+    source. For EVERY f no access to indptr / indices / dists / sigma / preds / delta / scores is out of
+    range, the queue is read only when non-empty and the stack popped only when non-empty. *)
+Theorem brandes_safe bfs_fuel n indptr indices scores :
+  csr_pat_wf n indptr indices -> length scores = n ->
+  br_sources bfs_fuel (seq 0 n) n indptr indices scores [] <> OOB.
+Proof. exact (brandes_safe_ok bfs_fuel n indptr indices scores). Qed.
+Print Assumptions brandes_safe.
+
+(** [brandes_flat] gives every BFS n units of fuel. It returns; the log holds one pair per source:
+    (pops of the BFS queue, pops of the [seen] stack): at most n (each node is enqueued at most once), and
+    the back-propagation pops every seen node exactly once. *)
+Theorem brandes_terminates n indptr indices :
+  csr_pat_wf n indptr indices ->
+  exists scores log, brandes_flat indptr indices = KOk (scores, log) /\ length scores = n /\
+                     length log = n /\ Forall (fun pq => fst pq <= n /\ snd pq = fst pq) log.
+Proof. exact (brandes_terminates_ok n indptr indices). Qed.
+Print Assumptions brandes_terminates.
+
+(** ** 9.3 leiden_core.pyx: optimize_refine_core — in bounds for EVERY fuel and EVERY stream [rnd] of
+    rand() values. Contract of Leiden._optimize_refine: labels, labels_refined and the per-node arrays have
+    n entries, the three cluster arrays m entries, refined labels < m (there m = n). *)
+Theorem leiden_refine_safe fuel rnd n m labels labels_refined indices indptr
+        (data out_weights in_weights out_cluster_weights in_cluster_weights cluster_weights self_loops : list Q)
+        res :
+  csr_wf n indptr indices data -> length labels = n -> length labels_refined = n ->
+  Forall (fun l => l < m) labels_refined ->
+  length out_weights = n -> length in_weights = n -> length out_cluster_weights = m ->
+  length in_cluster_weights = m -> length cluster_weights = m -> length self_loops = n ->
+  optimize_refine_core fuel rnd labels labels_refined indices indptr data out_weights in_weights
+                       out_cluster_weights in_cluster_weights cluster_weights self_loops res <> OOB.
+Proof.
+  exact (leiden_refine_safe_ok fuel rnd n m labels labels_refined indices indptr data out_weights in_weights
+           out_cluster_weights in_cluster_weights cluster_weights self_loops res).
+Qed.
+Print Assumptions leiden_refine_safe.
+
+(** ** 9.4 push.pyx: the work-list loop of push_pagerank terminates (supersedes the remark of section 5)
+
+    [residuals] is never reset and every increment is >= 0, so residuals only grow; a node is pushed only
+    when its residual crosses tol upwards ([residuals[neighbor] > tol > tmp]) and it stays above afterwards:
+    after the n entries of the argsort answer every node enters the queue at most once. [push_fuel n = 2 n]
+    pops suffice. Contract: 0 <= damping <= 1, seeds >= -1 (the caller passes a probability vector), the
+    argsort answer lists at most n node indices. *)
+Theorem push_terminates fuel n degrees indptr indices rev_indptr rev_indices (seeds : list Q)
+        damping tol argsort :
+  csr_pat_wf n indptr indices -> csr_pat_wf n rev_indptr rev_indices ->
+  length degrees = n -> length seeds = n ->
+  (0 <= damping)%Q -> (damping <= 1)%Q -> Forall (fun s => (- (1) <= s)%Q) seeds ->
+  (forall r, Forall (fun v => v < n) (argsort r)) -> (forall r, length (argsort r) <= length r) ->
+  push_fuel n <= fuel ->
+  exists scores,
+    push_pagerank fuel n degrees indptr indices rev_indptr rev_indices seeds damping tol argsort = KOk scores /\
+    length scores = n.
+Proof.
+  exact (push_terminates_ok fuel n degrees indptr indices rev_indptr rev_indices seeds damping tol argsort).
+Qed.
+Print Assumptions push_terminates.
+
+(** ** 9.5 leiden_core.pyx: the [while increase] loop of optimize_refine_core terminates (exact arithmetic)
+
+    [objective g out_weights in_weights res lr] = sum_ij (A_ij - res out_i in_j) delta(lr_i, lr_j), g the
+    graph denoted by the CSR arrays. Contract of Leiden._optimize_refine: the adjacency is symmetric
+    (A + A^T), self_loops its diagonal, the cluster arrays are the per-refined-label sums of the node
+    weights, cluster_weights is zero, and no refined cluster straddles two clusters of [labels]
+    (labels_refined = arange(n) there). Under that invariant — which every move preserves — every accepted
+    move ([delta_local > 0]) strictly increases the objective, so a pass that sets [increase] does; the
+    objective takes at most m^n values: m^n + 1 passes suffice for EVERY stream [rnd] of rand() values.
+    Like [optimize_core] with tol = 0 this is about exact rationals (in float32 a gain can be rounding
+    noise); the bound is only meant as a statement. *)
+Theorem leiden_refine_terminates fuel rnd n m labels labels_refined indices indptr
+        (data out_weights in_weights out_cluster_weights in_cluster_weights cluster_weights self_loops : list Q)
+        res :
+  csr_wf n indptr indices data ->
+  let g := csr_graph n indptr indices data in
+  wsymmetric g ->
+  (forall i, i < n -> (nthq self_loops i == entry g i i)%Q) ->
+  length labels = n -> length labels_refined = n -> Forall (fun l => l < m) labels_refined ->
+  length out_weights = n -> length in_weights = n -> length out_cluster_weights = m ->
+  length in_cluster_weights = m -> length cluster_weights = m -> length self_loops = n ->
+  (forall c, c < m -> (nthq out_cluster_weights c == csum g labels_refined out_weights c)%Q) ->
+  (forall c, c < m -> (nthq in_cluster_weights c == csum g labels_refined in_weights c)%Q) ->
+  (forall c, c < m -> (nthq cluster_weights c == 0)%Q) ->
+  (forall x y, x < n -> y < n -> lab labels_refined x = lab labels_refined y -> lab labels x = lab labels y) ->
+  S (m ^ n) <= fuel ->
+  exists lr' passes,
+    optimize_refine_core fuel rnd labels labels_refined indices indptr data out_weights in_weights
+                         out_cluster_weights in_cluster_weights cluster_weights self_loops res
+    = KOk (lr', passes) /\
+    passes <= S (m ^ n) /\ length lr' = n /\ Forall (fun l => l < m) lr' /\
+    (forall x y, x < n -> y < n -> lab lr' x = lab lr' y -> lab labels x = lab labels y) /\
+    (objective g out_weights in_weights res labels_refined <= objective g out_weights in_weights res lr')%Q.
+Proof.
+  exact (leiden_refine_terminates_ok fuel rnd n m labels labels_refined indices indptr data out_weights
+           in_weights out_cluster_weights in_cluster_weights cluster_weights self_loops res).
+Qed.
+Print Assumptions leiden_refine_terminates.
+
+(** the call made by Leiden._optimize_refine (labels_refined = arange(n), cluster weights = node weights,
+    cluster_weights = zeros(n)): returns, and the result refines [labels] *)
+Theorem leiden_refine_call_terminates fuel rnd n labels indices indptr
+        (data out_weights in_weights self_loops : list Q) res :
+  csr_wf n indptr indices data ->
+  let g := csr_graph n indptr indices data in
+  wsymmetric g ->
+  (forall i, i < n -> (nthq self_loops i == entry g i i)%Q) ->
+  length labels = n -> length out_weights = n -> length in_weights = n -> length self_loops = n ->
+  S (n ^ n) <= fuel ->
+  exists lr' passes,
+    optimize_refine_core fuel rnd labels (seq 0 n) indices indptr data out_weights in_weights
+                         out_weights in_weights (repeat 0%Q n) self_loops res = KOk (lr', passes) /\
+    passes <= S (n ^ n) /\
+    (forall x y, x < n -> y < n -> lab lr' x = lab lr' y -> lab labels x = lab labels y).
+Proof.
+  exact (leiden_refine_call_terminates_ok fuel rnd n labels indices indptr data out_weights in_weights
+           self_loops res).
+Qed.
+Print Assumptions leiden_refine_call_terminates.
+
+(** ** Non-vacuity of section 9 *)
+
+(** the identity satisfies the contract asked of std::sort *)
+Example sort_contract_id : sort_contract (fun l => l).
+Proof. intros l. split; [reflexivity | auto]. Qed.
+
+(** the path 0 - 2 - 1 (centre 2) with powers [1, 2, 4] and the identity as sort (on this input the tuples
+    are produced in sorted order): two rounds, colours [0, 0, 1] — what color_weisfeiler_lehman returns;
+    with max_iter = 1 the loop stops after one round; a fuel below max_iter is reported as OutOfFuel *)
+Example wl_example :
+  csr_pat_wf 3 [0; 1; 2; 4] [2; 2; 0; 1] /\
+  wl_kernel 3 (fun l => l) [0; 1; 2; 4] [2; 2; 0; 1] [0; 0; 0] [1; 2; 4]%Q 3 = KOk ([0; 0; 1], false, 2) /\
+  wl_kernel 1 (fun l => l) [0; 1; 2; 4] [2; 2; 0; 1] [0; 0; 0] [1; 2; 4]%Q 1 = KOk ([0; 0; 1], true, 1) /\
+  wl_kernel 1 (fun l => l) [0; 1; 2; 4] [2; 2; 0; 1] [0; 0; 0] [1; 2; 4]%Q 3 = OutOfFuel.
+Proof. split; [apply csr_pat_wf_b_sound; reflexivity|]. repeat split; vm_compute; reflexivity. Qed.
+
+(** path 0 - 1 - 2: node 1 lies on the two shortest paths 0 -> 2 and 2 -> 0 (score 2 before the halving);
+    every BFS pops the three nodes; with BFS fuel 2 the model reports OutOfFuel *)
+Example brandes_example :
+  csr_pat_wf 3 [0; 1; 3; 4] [1; 0; 2; 1] /\
+  brandes_flat [0; 1; 3; 4] [1; 0; 2; 1] = KOk ([0; 2; 0]%Q, [(3, 3); (3, 3); (3, 3)]) /\
+  br_sources 2 (seq 0 3) 3 [0; 1; 3; 4] [1; 0; 2; 1] (repeat 0%Q 3) [] = OutOfFuel.
+Proof. split; [apply csr_pat_wf_b_sound; reflexivity|]. split; vm_compute; reflexivity. Qed.
+
+(** the refinement kernel on the triangle {0,1,2} plus the edge 2 - 3 of [optimize_core_example], coarse
+    labels [0,0,1,1] (so that nodes 0, 1 may only join each other, and 2, 3 each other), rand() = 0, 1, 2, ...:
+    two passes; the contract of [leiden_refine_call_terminates] holds *)
+Example leiden_refine_example :
+  let indptr := [0; 2; 4; 7; 8] in
+  let indices := [1; 2; 0; 2; 0; 1; 3; 2] in
+  let data := [1 # 8; 1 # 8; 1 # 8; 1 # 8; 1 # 8; 1 # 8; 1 # 8; 1 # 8]%Q in
+  let w := [2 # 8; 2 # 8; 3 # 8; 1 # 8]%Q in
+  let g := csr_graph 4 indptr indices data in
+  csr_wf 4 indptr indices data /\ wsymmetric g /\
+  (forall i, i < 4 -> (nthq (repeat 0%Q 4) i == entry g i i)%Q) /\
+  optimize_refine_core 5 (fun k => k) [0; 0; 1; 1] (seq 0 4) indices indptr data w w w w (repeat 0%Q 4)
+                       (repeat 0%Q 4) 1%Q = KOk ([1; 1; 3; 3], 2) /\
+  optimize_refine_core 1 (fun k => k) [0; 0; 1; 1] (seq 0 4) indices indptr data w w w w (repeat 0%Q 4)
+                       (repeat 0%Q 4) 1%Q = OutOfFuel.
+Proof.
+  cbv zeta. split; [apply csr_wf_b_sound; reflexivity|].
+  split; [apply wsymmetricb_ok; vm_compute; reflexivity|].
+  split.
+  - intros i Hi. do 4 (destruct i as [|i]; [vm_compute; reflexivity|]). lia.
+  - split; vm_compute; reflexivity.
+Qed.
+
+(** push_pagerank on the directed 3-cycle with damping 1/2, tol 1/10, uniform seeds: 3 pops (nobody is
+    pushed again); fuel 2 is reported as OutOfFuel; [push_fuel 3 = 6] *)
+Example push_example :
+  csr_pat_wf 3 [0; 1; 2; 3] [1; 2; 0] /\ csr_pat_wf 3 [0; 1; 2; 3] [2; 0; 1] /\ push_fuel 3 = 6 /\
+  (exists scores, push_pagerank 3 3 [1; 1; 1] [0; 1; 2; 3] [1; 2; 0] [0; 1; 2; 3] [2; 0; 1]
+                                [1 # 3; 1 # 3; 1 # 3]%Q (1 # 2)%Q (1 # 10)%Q (fun _ => [0; 1; 2]) = KOk scores) /\
+  push_pagerank 2 3 [1; 1; 1] [0; 1; 2; 3] [1; 2; 0] [0; 1; 2; 3] [2; 0; 1]
+                [1 # 3; 1 # 3; 1 # 3]%Q (1 # 2)%Q (1 # 10)%Q (fun _ => [0; 1; 2]) = OutOfFuel.
+Proof.
+  split; [apply csr_pat_wf_b_sound; reflexivity|]. split; [apply csr_pat_wf_b_sound; reflexivity|].
+  split; [reflexivity|]. split; [eexists; vm_compute; reflexivity | vm_compute; reflexivity].
+Qed.
+
+(** ** 9.6 paris.pyx (dict-based: Model/Paris.v, Proofs/ParisTotal.v)
+
+    There are no raw buffers: "staying within its buffers" means that no dict lookup raises KeyError
+    ([Err KeyError] in the model: [neighbors[node]], [cluster_sizes[node]], the [pop]s of [merge]), that the
+    [chain] vector is only read / popped when non-empty and [connected_components[-1]] exists
+    ([Err IndexError]), and that the two nested [while] loops end ([None] = out of fuel;
+    [paris_fuel n = 3 n + 2] steps of the nearest-neighbour chain). On every admissible input (symmetric
+    positive weights, positive node weights, n >= 1; exact arithmetic) the model returns a dendrogram. *)
+From SKN Require Import Model.Cuts Model.Paris Proofs.ParisReducible Proofs.ParisTotal.
+Set Warnings "-notation-overridden". (* keep: a line with a parenthesis after the imports *)
+
+Theorem paris_safe (hinf : Q) (n : nat) (G : Paris.entries) (wout win : list Q) :
+  1 <= n -> graph_ok n G -> weights_ok n wout -> weights_ok n win ->
+  exists D m t, paris_core Paris.exact false hinf n G wout win = Some (Cuts.Ok (D, m, t)).
+Proof. exact (ParisTotal.paris_total hinf n G wout win). Qed.
+Print Assumptions paris_safe.
+
+(** the chain loop itself: ends normally within 3 n + 2 steps with at least one component recorded
+    (so that [connected_components[size - 1]] is a valid read) *)
+Theorem paris_chain_terminates (n : nat) (G : Paris.entries) (wout win : list Q) :
+  1 <= n -> graph_ok n G -> weights_ok n wout -> weights_ok n win ->
+  exists st, paris_run Paris.exact false (paris_fuel n) (paris_init (ag_init Paris.exact n G wout win))
+             = Some (Cuts.Ok st) /\ p_comps st <> [].
+Proof. exact (ParisTotal.paris_run_total n G wout win). Qed.
+Print Assumptions paris_chain_terminates.
+
+Example paris_safe_example : 1 <= 6 /\ graph_ok 6 ex_G /\ weights_ok 6 ex_w /\ paris_fuel 6 = 20.
+Proof.
+  destruct paris_total_example_hyps as (A & B & C).
+  split; [exact A|]. split; [exact B|]. split; [exact C|reflexivity].
+Qed.
